@@ -78,7 +78,7 @@ esac
 case "${2:-}" in
   C07)
     export VERIF_WORK_BIN="$V/bin/work.$$"
-    if ! go build $MODFLAG -cover -covermode=count -coverpkg=verif/cmd/work,github.com/go-gts/gts,github.com/go-gts/gts/seqio -o "$VERIF_WORK_BIN" ./cmd/work 2> "$V/bin/build.$$.log"; then
+    if ! go build $MODFLAG -cover -covermode=count -coverpkg=verif/cmd/work,github.com/go-gts/gts,github.com/go-gts/gts/seqio,github.com/go-pars/pars,github.com/go-wrap/wrap,github.com/go-ascii/ascii -o "$VERIF_WORK_BIN" ./cmd/work 2> "$V/bin/build.$$.log"; then
       echo "note: the instrumented helper does not build; the statement-count sub-check of C07 is skipped" >&2
       unset VERIF_WORK_BIN
     fi;;
